@@ -194,11 +194,11 @@ theorem loadTemplateFeatures_some (d : Dir) (nt : Nat) (s : Sparse)
           exact ⟨a, rfl, by simpa using h3, rfl, c1, c2, r1, r2⟩
 
 /-- the files the loader creates do not change the feature tables -/
-theorem readFile_features_frame (inv : Arr → Arr) (d : Dir) (v : View) (d' : Dir) (h : load inv d = .ok (v, d'))
+theorem readFile_features_frame (inv : Arr → Arr) {one : Cell} (d : Dir) (v : View) (d' : Dir) (h : load inv d one = .ok (v, d'))
     (name : String) (hn : ∀ g ∈ createdNames, globMatch name g = false) :
     readFile d' [name] = readFile d [name] := by
   obtain ⟨_, _, _, _, _, _, -, hd, -⟩ := load_nf inv d v d' h
   rw [hd]
-  exact readFile_d2 inv d [name] (by simpa using hn)
+  exact readFile_d2 inv d [name] _ (by simpa using hn)
 
 end PhyVerif.C04.Lemmas
